@@ -599,7 +599,9 @@ def run_flow(units, edges, cap, outs, ins):
                 r = "error"
             flows.append([p, Sym(r)])
         steps = [nodes, caps, str(unified), flows]
-    except STRUCT:
+    except CaseTimeout:
+        raise
+    except Exception:  # noqa: BLE001  private helpers of another shape: this part is unobservable, not wrong
         steps = [Sym("unavailable")] * 4
     try:
         ck._chk_cap_flow(ck._get_anal_graph(ck._make_cap_graph(build(), cap)), exc.ComponentInfo(cap, "Capability " + cap),
